@@ -255,6 +255,13 @@ def with_layout(rng, arr, layout):
         return np.ascontiguousarray(arr[::-1, :, ::-1])[::-1, :, ::-1]
     if layout == "transposed_view":
         return np.ascontiguousarray(arr.transpose(1, 2, 0)).transpose(2, 0, 1)
+    if layout == "swap12":
+        return np.ascontiguousarray(np.swapaxes(arr, 1, 2)).swapaxes(1, 2)
+    if layout == "swap01_neg":
+        return np.ascontiguousarray(np.swapaxes(arr, 0, 1)[:, ::-1, :])[:, ::-1, :].swapaxes(0, 1)
+    if layout == "zero_stride":                    # only for arrays that are constant along z (generator guarantees it)
+        v = np.broadcast_to(arr[:, :, :1], arr.shape)
+        return v if np.array_equal(v, arr, equal_nan=True) else arr
     if layout == "readonly":
         a = np.array(arr, copy=True)
         a.flags.writeable = False
